@@ -624,6 +624,114 @@ theorem gen_dep_decode_safe (d : Bytes) :
 example : Gen.Fn.dep_dep_req_decode [0xD4, 0x06, 0x05, 7, 1, 2] = .ok (some ((0, false, true, 1), some 7, none, [1, 2])) := by rfl
 example : Gen.Fn.dep_dep_res_decode [0xD5, 0x07, 0x4C, 7] = .error .protocol := by rfl
 
+/-! ## `DEP_REQ_RES.encode` as inherited by DEP_REQ, DEP_RES -/
+
+/-- `fmt << 4 | nad << 3 | did << 2 | pni` with one-bit flags and a two-bit packet number is the sum -/
+theorem pfb_bits (fmt pni : Nat) (hn hd : Bool) (hp : pni < 4) :
+    bor (bor (bor (shl (fmt : Int) 4) (shl (if hn = true then 1 else 0) 3)) (shl (if hd = true then 1 else 0) 2)) (pni : Int)
+      = ((fmt * 16 + (if hn then 8 else 0) + (if hd then 4 else 0) + pni : Nat) : Int) := by
+  have e4 : shl (fmt : Int) 4 = ((fmt <<< 4 : Nat) : Int) := by
+    rw [show (4 : Int) = ((4 : Nat) : Int) from rfl, shl_ofNat]
+  have en : shl (if hn = true then 1 else 0) 3 = (((if hn then 8 else 0) : Nat) : Int) := by cases hn <;> rfl
+  have ed : shl (if hd = true then 1 else 0) 2 = (((if hd then 4 else 0) : Nat) : Int) := by cases hd <;> rfl
+  rw [e4, en, ed, bor_ofNat, bor_ofNat, bor_ofNat]
+  congr 1
+  have hs : fmt <<< 4 = fmt * 16 := by rw [Nat.shiftLeft_eq]
+  have hlow : (if hn then 8 else 0) ||| (if hd then 4 else 0) ||| pni = (if hn then 8 else 0) + (if hd then 4 else 0) + pni
+      ∧ (if hn then 8 else 0) + (if hd then 4 else 0) + pni < 16 := by
+    match pni, hp with
+    | 0, _ => cases hn <;> cases hd <;> decide
+    | 1, _ => cases hn <;> cases hd <;> decide
+    | 2, _ => cases hn <;> cases hd <;> decide
+    | 3, _ => cases hn <;> cases hd <;> decide
+  rw [Nat.or_assoc, Nat.or_assoc, ← Nat.or_assoc (if hn then 8 else 0), hlow.1,
+    ← Nat.shiftLeft_add_eq_or_of_lt (by simpa using hlow.2), hs]
+  omega
+
+/-- `DEP_REQ.encode` / `DEP_RES.encode`: the C04 codec `encodePdu` of a DEP PDU whose PFB flags say which of DID / NAD
+are present (`fmt < 16`, `pni < 4`, DID and NAD octets) -/
+theorem dep_req_encode_bridge (fmt pni : Nat) (did nad : Option Nat) (data : Bytes) (hf : fmt < 16) (hp : pni < 4)
+    (hd : ∀ v, did = some v → v < 256) (hn : ∀ v, nad = some v → v < 256) :
+    Gen.Fn.dep_dep_req_encode ((fmt : Int), nad.isSome, did.isSome, (pni : Int)) ((did.getD 0 : Nat) : Int)
+        ((nad.getD 0 : Nat) : Int) data
+      = .ok (encodePdu true (.dep fmt pni did nad data)) := by
+  unfold Gen.Fn.dep_dep_req_encode
+  simp only []
+  rw [pfb_bits fmt pni nad.isSome did.isSome hp, pack_B]
+  have hle : ¬ (fmt * 16 + (if nad.isSome then 8 else 0) + (if did.isSome then 4 else 0) + pni > 255) := by
+    cases nad.isSome <;> cases did.isSome <;> simp <;> omega
+  rw [if_neg hle]
+  cases did with
+  | none =>
+    cases nad with
+    | none => simp [encodePdu, flag, optByte]
+    | some n =>
+      have := hn n rfl
+      have e := mkBytes_nat [n]
+      simp only [List.map_cons, List.map_nil] at e
+      simp [encodePdu, flag, optByte, e, this]
+  | some dv =>
+    have hdv := hd dv rfl
+    have e := mkBytes_nat [dv]
+    simp only [List.map_cons, List.map_nil] at e
+    cases nad with
+    | none => simp [encodePdu, flag, optByte, e, hdv]
+    | some n =>
+      have := hn n rfl
+      have e' := mkBytes_nat [n]
+      simp only [List.map_cons, List.map_nil] at e'
+      simp [encodePdu, flag, optByte, e, e', hdv, this]
+
+
+theorem dep_res_encode_bridge (fmt pni : Nat) (did nad : Option Nat) (data : Bytes) (hf : fmt < 16) (hp : pni < 4)
+    (hd : ∀ v, did = some v → v < 256) (hn : ∀ v, nad = some v → v < 256) :
+    Gen.Fn.dep_dep_res_encode ((fmt : Int), nad.isSome, did.isSome, (pni : Int)) ((did.getD 0 : Nat) : Int)
+        ((nad.getD 0 : Nat) : Int) data
+      = .ok (encodePdu false (.dep fmt pni did nad data)) := by
+  unfold Gen.Fn.dep_dep_res_encode
+  simp only []
+  rw [pfb_bits fmt pni nad.isSome did.isSome hp, pack_B]
+  have hle : ¬ (fmt * 16 + (if nad.isSome then 8 else 0) + (if did.isSome then 4 else 0) + pni > 255) := by
+    cases nad.isSome <;> cases did.isSome <;> simp <;> omega
+  rw [if_neg hle]
+  cases did with
+  | none =>
+    cases nad with
+    | none => simp [encodePdu, flag, optByte]
+    | some n =>
+      have := hn n rfl
+      have e := mkBytes_nat [n]
+      simp only [List.map_cons, List.map_nil] at e
+      simp [encodePdu, flag, optByte, e, this]
+  | some dv =>
+    have hdv := hd dv rfl
+    have e := mkBytes_nat [dv]
+    simp only [List.map_cons, List.map_nil] at e
+    cases nad with
+    | none => simp [encodePdu, flag, optByte, e, hdv]
+    | some n =>
+      have := hn n rfl
+      have e' := mkBytes_nat [n]
+      simp only [List.map_cons, List.map_nil] at e'
+      simp [encodePdu, flag, optByte, e, e', hdv, this]
+
+
+example : Gen.Fn.dep_dep_req_encode (1, false, true, 2) 7 0 [9, 9] = .ok [0xD4, 0x06, 0x16, 7, 9, 9] := by decide +kernel
+example : Gen.Fn.dep_dep_res_encode (16, false, false, 0) 0 0 [] = .error .struct := by decide +kernel
+
+/-- encode then decode a DEP PDU: the C04 roundtrip `decodeDep (encode ..) = ..` through the regenerated functions -/
+theorem dep_req_roundtrip (fmt pni : Nat) (did nad : Option Nat) (data : Bytes) (hf : fmt < 16) (hp : pni < 4)
+    (hd : ∀ v, did = some v → v < 256) (hn : ∀ v, nad = some v → v < 256) :
+    (Gen.Fn.dep_dep_req_encode ((fmt : Int), nad.isSome, did.isSome, (pni : Int)) ((did.getD 0 : Nat) : Int)
+        ((nad.getD 0 : Nat) : Int) data >>= fun f => Gen.Fn.dep_dep_req_decode f >>= depOfRec)
+      = decodeDep ((encodePdu true (.dep fmt pni did nad data)).drop 2) := by
+  rw [dep_req_encode_bridge fmt pni did nad data hf hp hd hn, Py.bind_ok]
+  have e : encodePdu true (.dep fmt pni did nad data)
+      = 0xD4 :: 0x06 :: (encodePdu true (.dep fmt pni did nad data)).drop 2 := by
+    simp [encodePdu]
+  rw [e, ← (dep_decode_bridge _).1]
+  simp
+
 /-! ## the dispatch of `decode_frame` with the regenerated PDU decoders -/
 
 set_option linter.unusedSimpArgs false in
